@@ -13,72 +13,14 @@ namespace OlVerif.C13
     value Python gives it - for every number of targets, every star position and every length
     of the source sequence. -/
 theorem unpack (n : Nat) (star : Option Nat) (vs r : List Val)
-    (h : pyValues n star vs = some r) : ∀ i, i < n → olValue n star vs i = r[i]? := by
-  intro i hi
-  cases star with
-  | none =>
-    simp only [pyValues] at h
-    split at h
-    · rename_i hl
-      cases h
-      simp only [olValue, pyIndex]
-      have : (0 : Int) ≤ (i : Int) := Int.natCast_nonneg i
-      simp [this]
-    · cases h
-  | some k =>
-    simp only [pyValues] at h
-    split at h
-    · rename_i hk
-      obtain ⟨hk1, hk2⟩ := hk
-      cases h
-      simp only [olValue]
-      by_cases h1 : i < k
-      · -- before the star
-        simp only [h1, ↓reduceIte, pyIndex]
-        have : (0 : Int) ≤ (i : Int) := Int.natCast_nonneg i
-        have hlen : (List.take k vs).length = k := by simp; omega
-        simp only [this, ↓reduceIte, Int.toNat_natCast, List.append_assoc]
-        rw [List.getElem?_append_left (by omega)]
-        simp [h1]
-      · by_cases h2 : i = k
-        · -- the starred target
-          subst h2
-          have hlen : (List.take i vs).length = i := by simp; omega
-          simp only [Nat.lt_irrefl, ↓reduceIte, List.append_assoc]
-          rw [List.getElem?_append_right (by omega)]
-          simp only [hlen, Nat.sub_self, List.cons_append, List.nil_append, List.getElem?_cons_zero, Option.some.injEq,
-            Val.seq.injEq]
-          by_cases h3 : (i : Int) - n + 1 = 0
-          · have : n - 1 = i := by omega
-            simp only [h3, ↓reduceIte, pySlice]
-            rw [List.take_of_length_le (by simp; omega)]
-          · simp only [h3, ↓reduceIte, pySlice]
-            have e : (-((i : Int) - n + 1)).toNat = n - 1 - i := by omega
-            rw [e, List.drop_take]
-            congr 1
-            omega
-        · -- after the star
-          have h3 : k < i := by omega
-          simp only [h1, h2, ↓reduceIte, pyIndex]
-          have hneg : ¬ (0 : Int) ≤ (i : Int) - n := by omega
-          have e : (-((i : Int) - n)).toNat = n - i := by omega
-          simp only [hneg, ↓reduceIte, e]
-          have hle : n - i ≤ vs.length := by omega
-          simp only [hle, ↓reduceIte, List.append_assoc]
-          have hlen : (List.take k vs).length = k := by simp; omega
-          rw [List.getElem?_append_right (by omega)]
-          simp only [hlen, List.cons_append, List.nil_append]
-          have : i - k = (i - k - 1) + 1 := by omega
-          rw [this, List.getElem?_cons_succ, List.getElem?_drop]
-          congr 1
-          omega
-    · cases h
+    (h : pyValues n star vs = some r) : ∀ i, i < n → olValue n star vs i = r[i]? :=
+  unpackG Val.seq n star vs r h
 
 /-- non-vacuity: `a, *b, c = [1, 2, 3, 4]` -/
 example : pyValues 3 (some 1) [.atom 1, .atom 2, .atom 3, .atom 4] =
-    some [.atom 1, .seq [.atom 2, .atom 3], .atom 4] := by simp [pyValues]
+    some [.atom 1, .seq [.atom 2, .atom 3], .atom 4] := by simp [pyValues, pyValuesG]
 example : olValue 3 (some 1) [.atom 1, .atom 2, .atom 3, .atom 4] 2 = some (.atom 4) := by
-  simp [olValue, pyIndex]
+  simp [olValue, olValueG, pyIndexG]
 
 /-- reference table: the function of the standard `operator` module that performs `a op= b`
     (library reference, `operator`, "In-place Operators": `a = iadd(a, b)` is equivalent to `a += b`, …) -/
